@@ -1,4 +1,5 @@
 import CalmVerif.Props.C05
+import CalmVerif.Props.C05hdr
 open CalmVerif.Props.C05 CalmVerif.Props.C05lex
 #print axioms simple_tokens_never_regex
 #print axioms punctuators_never_div
@@ -16,3 +17,11 @@ open CalmVerif.Props.C05 CalmVerif.Props.C05lex
 #check @CalmVerif.Props.C05.slash_classes_exclusive
 #print axioms CalmVerif.Props.C05.slash_reading_is_dictated
 #check @CalmVerif.Props.C05.slash_reading_is_dictated
+#print axioms CalmVerif.Props.C05hdr.header_keywords_are_grammar_headers
+#check @CalmVerif.Props.C05hdr.header_keywords_are_grammar_headers
+#print axioms CalmVerif.Props.C05hdr.grammar_header_keywords_value
+#check @CalmVerif.Props.C05hdr.grammar_header_keywords_value
+#print axioms CalmVerif.Props.C05hdr.kf05a_table_rejected
+#check @CalmVerif.Props.C05hdr.kf05a_table_rejected
+#print axioms CalmVerif.Props.C05hdr.extra_keyword_rejected
+#check @CalmVerif.Props.C05hdr.extra_keyword_rejected
